@@ -11,7 +11,7 @@
 namespace verif {
 const PropertyInfo kInfo = {
     "C29", 16, 4, 12,
-    "tape -> daemon state: 0..8 stored chunks (count from {0,1,2,3,8} or uniform; sizes 1..600 or 70000 bytes, TTLs 60..3600 s), 0..4 manual advertised endpoints "
+    "tape -> daemon state: 0..8 stored chunks (count from {0,1,2,3,8} or uniform; one case in ~20: 200, 206, 260 or 420 chunks, i.e. a LIST value beyond 16 / 32 KiB; sizes 1..600 or 70000 bytes, TTLs 60..3600 s), 0..4 manual advertised endpoints "
     "(IPv4 / hostname / IPv6 literal hosts, port 0 or explicit, source label in {none, manual, config, auto:upnp, stun}, occasionally an empty host that the daemon skips), "
     "0..4 bootstrap nodes (with / without public identity), 0..3 auto-advertise warnings drawn from the seven warning templates of the sources, conflict flag, optional "
     "advertise host / port, control host and storage directory strings with blanks, colons and backslashes; one ControlClient::send per record: LIST | STATUS | DEFAULTS | "
@@ -81,6 +81,10 @@ void run_case(Ctx& c) {
 
     // ---- daemon state
     unsigned nchunks = static_cast<unsigned>(boundary_int(t.h(0), t.h(0), kChunkCount, 0, 8));
+    // "any number of chunks": one case in ~20 holds enough chunks for the LIST value to pass 16 KiB / 32 KiB (one entry is ~80 bytes)
+    static const unsigned kManyChunks[] = {200, 206, 260, 420};
+    const bool many = t.h(0) >= 116 && t.h(0) < 128;
+    if (many) { nchunks = kManyChunks[t.h(0) % 4]; c.label("two_hundred_or_more_chunks"); }
     unsigned nend = t.h(1) % 5, nboot = t.h(2) % 5, nwarn = t.h(3) % 4;
     const bool conflict = (t.h(3) & 0x40) != 0;
     if (known) {
@@ -125,7 +129,7 @@ void run_case(Ctx& c) {
     std::vector<Chunk> chunks;
     for (unsigned i = 0; i < nchunks; ++i) {
         Chunk ch;
-        std::size_t size = (sg.below(16) == 0) ? 70000 : 1 + sg.below(600);
+        std::size_t size = many ? 1 + sg.below(40) : (sg.below(16) == 0) ? 70000 : 1 + sg.below(600);
         ch.plain = sg.bytes(size);
         ch.id = ctl::payload_chunk_id(ch.plain);
         ch.uri = protocol::encode_manifest(node.store_chunk(ch.id, ch.plain, seconds(60 + sg.below(3541))));
